@@ -98,7 +98,10 @@ func incrementBytes(in []byte) []byte {
 	for i := len(rv) - 1; i >= 0; i-- {
 		rv[i] = rv[i] + 1
 		if rv[i] != 0 {
-			return rv // didn't overflow, so stop
+			// didn't overflow, so stop; the bytes that did overflow are
+			// dropped so that the result is the smallest key greater
+			// than every key having the input as a prefix
+			return rv[:i+1]
 		}
 	}
 	return nil // overflowed
